@@ -141,7 +141,71 @@ def _run(db, ctx):
     prefilter_conservative(db, ctx)
 
 
+def hit_order(db, ctx, rid):
+    """The natural order of hits, which seeds `best` (R3.3) and merges the buffered hits: by score first, ties by position."""
+    from lm import reduce as RD
+    ctx.rule(rid, 'Hit::partial_cmp compares the scores first (None when they are not comparable) and the positions only when the scores are equal')
+    fs = [f for f in db.fns.values() if f.path.startswith('<lightmotif::scan::Hit as core::cmp::PartialOrd>::partial_cmp') and f.kind == 'AssocFn' and not f.promoted_of]
+    if len(fs) != 1:
+        ctx.fail(rid, 'lightmotif::scan::Hit::partial_cmp', 'anchor', f'reason=anchor-missing: {len(fs)} bodies')
+        return
+    f = fs[0]
+    SC = ('call~', '::partial_cmp', (('fld', ('p', 1), 'score'), ('fld', ('p', 2), 'score')))
+    POS = ('call~', ('::partial_cmp', '::cmp'), (('fld', ('p', 1), 'position'), ('fld', ('p', 2), 'position')))
+    e = common.return_expr_single_path_allow(f)
+    en = norm(e) if e is not None else None
+    ok, why = False, ''
+    if en is not None and m(('call~', 'Option::map', (SC, '$clo')), en) is not None:
+        # score.partial_cmp(..).map(|o| o.then_with(|| position.cmp(..)))
+        clo = m(('call~', 'Option::map', (SC, '$clo')), en)['$clo']
+        out = RD.apply_fn(db, clo, [('sym', 'o')])
+        on = norm(out) if out is not None else None
+        mt = m(('call~', ('Ordering::then_with', 'Ordering::then'), (('sym', 'o'), '$t')), on) if on is not None else None
+        if mt is not None:
+            t_ = mt['$t']
+            if on[1].endswith('then_with'):
+                t2 = RD.apply_fn(db, t_, [])
+                t_ = norm(t2) if t2 is not None else None
+            ok = t_ is not None and m(POS, t_) is not None
+        why = f'map form: {X.show(on, 100) if on is not None else None}'
+    else:
+        # match score.partial_cmp(..)? { Equal => position.partial_cmp(..), other => Some(other) }
+        R = X.Rec(f, ite=True)
+        ords = ('fld', ('down', ('call~', 'Try::branch', (SC,)), 'Continue'), '0')
+        kinds = []
+        for d_ in f.defs().get(0, []):
+            v = norm(R.call(d_[2]) if d_[1] == 'term' else R.rvalue(d_[2]))
+            rels = G.relations(f, R, d_[0])
+            eq_sw = [r for r in rels if r[0] == 'switch' and m(('discr', SC), norm(r[1])) is None and m(('discr', ('call~', 'Try::branch', (SC,))), norm(r[1])) is None]
+            is_equal = any(r[2] == ('eq', 0) for r in eq_sw)
+            not_equal = any(r[2] in (('notin', [0]),) or (r[2][0] == 'eq' and r[2][1] != 0) for r in eq_sw)
+            if m(('call~', 'from_residual', '_'), v) is not None or (v[0] == 'agg' and v[1][2] == 'None' if v[0] == 'agg' and isinstance(v[1], tuple) else False):
+                kinds.append('none')
+            elif m(POS, v) is not None or (v[0] == 'agg' and len(v[2]) == 1 and m(POS, v[2][0]) is not None):
+                kinds.append('pos' if is_equal and not not_equal else 'pos-unguarded')
+            elif v[0] == 'agg' and len(v[2]) == 1 and (m(ords, v[2][0]) is not None or m(('fld', ('down', SC, 'Some'), '0'), v[2][0]) is not None):
+                kinds.append('score' if not_equal and not is_equal else 'score-unguarded')
+            elif v[0] == 'agg' and len(v[2]) == 1 and m(('call~', ('Ordering::then_with', 'Ordering::then'), ('$o', '$t')), v[2][0]) is not None:
+                # let by_score = self.score.partial_cmp(&other.score)?; Some(by_score.then_with(|| self.position.cmp(&other.position)))
+                mt = m(('call~', ('Ordering::then_with', 'Ordering::then'), ('$o', '$t')), v[2][0])
+                t_ = mt['$t']
+                if v[2][0][1].endswith('then_with'):
+                    t2 = RD.apply_fn(db, t_, [])
+                    t_ = norm(t2) if t2 is not None else None
+                first = m(ords, mt['$o']) is not None or m(('fld', ('down', SC, 'Some'), '0'), mt['$o']) is not None
+                kinds.append('score-then-pos' if first and t_ is not None and m(POS, t_) is not None else 'other:' + X.show(v, 60))
+            else:
+                kinds.append('other:' + X.show(v, 60))
+        ok = sorted(set(kinds)) in (['none', 'pos', 'score'], ['pos', 'score'], ['none', 'score-then-pos'], ['score-then-pos'])
+        why = f'match form: {sorted(set(kinds))}'
+    if ok:
+        ctx.ok(rid, f, 'hits are ordered by score, ties by position', [why])
+    else:
+        ctx.fail(rid, f, 'order of hits', f'the order is not "score first, position on equal scores" ({why}): the best hit and the order in which hits are yielded rest on it')
+
+
 def run(db, ctx):
+    hit_order(db, ctx, 'R3.10')
     _run(db, ctx)
     # the scanner scores one block of rows per iteration into a reused buffer, including a possibly empty trailing block that starts in the
     # look-ahead rows: every score wrapper must resize (clear) the output on every path, or stale 8-bit scores of the previous block are re-read
